@@ -7,6 +7,7 @@ import (
 	"os"
 	"sort"
 	"strings"
+	"sync"
 
 	"golang.org/x/tools/go/packages"
 	"golang.org/x/tools/go/ssa"
@@ -27,6 +28,7 @@ type Engine struct {
 	recCache      map[*ssa.Function]bool
 	repoMods      []string // module path prefixes considered "in repo"
 	funcIndex     map[string]*ssa.Function
+	mu            sync.Mutex // guards modsets, recCache, funcIndex (VCs are generated concurrently)
 }
 
 func NewEngine(repo, verif string, patterns []string) (*Engine, error) {
@@ -192,6 +194,8 @@ func (eng *Engine) collectEvents() {
 
 // findFunc finds the SSA function a contract is about.
 func (eng *Engine) findFunc(spec *FuncSpec) *ssa.Function {
+	eng.mu.Lock()
+	defer eng.mu.Unlock()
 	key := specKey(spec.Pkg, spec.Name)
 	if f, ok := eng.funcIndex[key]; ok {
 		return f
@@ -251,6 +255,8 @@ func (eng *Engine) findFunc(spec *FuncSpec) *ssa.Function {
 }
 
 func (eng *Engine) isRecursive(fn *ssa.Function) bool {
+	eng.mu.Lock()
+	defer eng.mu.Unlock()
 	if r, ok := eng.recCache[fn]; ok {
 		return r
 	}
